@@ -197,7 +197,24 @@ class ClientRoles:
         cands = {}
         recv_vars = {t.id for a in walk_no_nested(f.node) if isinstance(a, ast.Assign) and isinstance(a.value, ast.Call)
                      and call_name(a.value) == "recv" for t in a.targets if isinstance(t, ast.Name)}
+        # a local standing for the attribute's (mutable) object: `buf = self.__read_buffer` ... `buf += data`
+        alias = {}
+        for a in walk_no_nested(f.node):
+            if isinstance(a, ast.Assign) and len(a.targets) == 1 and isinstance(a.targets[0], ast.Name) and isinstance(a.value, ast.Attribute) \
+                    and isinstance(a.value.value, ast.Name) and a.value.value.id == selfname:
+                alias[a.targets[0].id] = a.value.attr
+
+        def is_recv(v):
+            return (isinstance(v, ast.Name) and v.id in recv_vars) or (isinstance(v, ast.Call) and call_name(v) == "recv")
         for n in walk_no_nested(f.node):
+            if isinstance(n, ast.AugAssign) and isinstance(n.target, ast.Name) and n.target.id in alias and is_recv(n.value):
+                cands[alias[n.target.id]] = cands.get(alias[n.target.id], 0) + 12
+            if isinstance(n, ast.Call) and isinstance(n.func, ast.Attribute) and n.func.attr in ("extend", "append") and n.args and is_recv(n.args[0]):
+                tgt = n.func.value
+                if isinstance(tgt, ast.Name) and tgt.id in alias:
+                    cands[alias[tgt.id]] = cands.get(alias[tgt.id], 0) + 12
+                elif isinstance(tgt, ast.Attribute) and isinstance(tgt.value, ast.Name) and tgt.value.id == selfname:
+                    cands[tgt.attr] = cands.get(tgt.attr, 0) + 12
             if isinstance(n, ast.AugAssign) and isinstance(n.target, ast.Attribute) and isinstance(n.target.value, ast.Name) \
                     and n.target.value.id == selfname:
                 cands[n.target.attr] = cands.get(n.target.attr, 0) + 2
